@@ -98,6 +98,29 @@ func c17String(r *vx.Run, s string) {
 	if !dns.Equal(s, s) {
 		r.Violation("C17:string:dns.Equal-not-reflexive", c17Quoted(s), cs)
 	}
+	// Spelling variants of the local part of every *valid* address of the
+	// enumeration map to the same key (the local part is free-form UTF-8, so
+	// every variant is again a valid address; the domain is left untouched).
+	if kerr == nil && Valid(s) {
+		if mbox, domain, err := Split(s); err == nil && domain != "" && !strings.HasPrefix(mbox, "\"") {
+			vars := map[string]string{"nfd": norm.NFD.String(mbox), "nfc": norm.NFC.String(mbox), "lower": c17MapRunes(mbox, unicode.ToLower)}
+			if !strings.ContainsRune(mbox, 0x3c2) {
+				vars["upper"] = c17MapRunes(mbox, unicode.ToUpper)
+				vars["upper-nfd"] = c17MapRunes(norm.NFD.String(mbox), unicode.ToUpper)
+			}
+			for _, vn := range []string{"nfd", "nfc", "lower", "upper", "upper-nfd"} {
+				v, ok := vars[vn]
+				if !ok || v == mbox {
+					continue
+				}
+				r.Count("local_variants", 1)
+				k2, err := ForLookup(v + "@" + domain)
+				if err != nil || k2 != key {
+					r.Violation("C17:string-variant:"+vn, fmt.Sprintf("ForLookup(%s)=%s but the %s spelling %s has key %s (%v)", c17Quoted(s), c17Quoted(key), vn, c17Quoted(v+"@"+domain), c17Quoted(k2), err), cs)
+				}
+			}
+		}
+	}
 }
 
 // c17Pair: Equal is symmetric and coincides with equality of lookup keys.
@@ -145,6 +168,7 @@ var c17Locals = []string{
 	"a", "ab1", "a.b", "a-b", "é", "café", "ǰ", "xǰ", "straße", "σσ",
 	"οδός", // οδός: final sigma
 	"\"a b\"", "\"a@b\"", "\"a\\\"b\"", "postmaster", "a\u0080b",
+	"İb", "ǅ", "ẞx", "\u212a", "\u212b", "\u2126", "Ǆ", "I\u0307", "J\u030c",
 }
 
 // IDNA2008-valid U-labels in canonical form.
